@@ -4,6 +4,8 @@ CONSTANT MaxTasks = 2
 CONSTANT MaxOps = 3
 CONSTANT MaxSpawn = 3
 CONSTANT FlagUnderMutex = TRUE
+CONSTANT Expiry = FALSE
+CONSTANT FinishedAtomic = TRUE
 CONSTANT AllowSpurious = FALSE
 INVARIANTS TypeOK NoDeadlockB PoolBounded C08Quiescent QueueConsistent AllDestroyedAtEnd MutexOK NoRace
 CONSTRAINT SpawnBound
